@@ -1168,7 +1168,16 @@ class SX:
         self.spec_mode += 1
         try:
             for name, expr in snaps.items():
-                v = self.ev1(ast.parse(expr, mode="eval").body, st)
+                if expr == "@arg0":
+                    # the first argument of the call this statement makes (e.g. the value being appended)
+                    call = stmt.value if isinstance(stmt, ast.Expr) else getattr(stmt, "value", None)
+                    while isinstance(call, ast.Await):
+                        call = call.value
+                    if not (isinstance(call, ast.Call) and call.args):
+                        continue
+                    v = self.ev1(call.args[0], st)
+                else:
+                    v = self.ev1(ast.parse(expr, mode="eval").body, st)
                 pre[name] = self.deref(v, st)
         finally:
             self.spec_mode -= 1
